@@ -183,6 +183,89 @@ def rule_method_tables(idx: ProgramIndex, rep: Report):
     # `method` is not spec-bearing - any valid method yields a valid factorization)
 
 
+def _literals_of_test(t: ast.AST, var: str) -> Set[str]:
+    """Method names under which a test on `var` holds: var == "x", var in ("x", "y"), a == .. or b == .."""
+    out: Set[str] = set()
+    if isinstance(t, ast.BoolOp) and isinstance(t.op, ast.Or):
+        for v in t.values:
+            out |= _literals_of_test(v, var)
+        return out
+    if isinstance(t, ast.Compare) and isinstance(t.left, ast.Name) and t.left.id == var and len(t.ops) == 1:
+        c = t.comparators[0]
+        if isinstance(t.ops[0], ast.Eq) and isinstance(c, ast.Constant) and isinstance(c.value, str):
+            out.add(c.value)
+        if isinstance(t.ops[0], ast.In) and isinstance(c, (ast.Tuple, ast.List, ast.Set)):
+            out |= {e.value for e in c.elts if isinstance(e, ast.Constant) and isinstance(e.value, str)}
+    return out
+
+
+def rule_request_forwarding(idx: ProgramIndex, rep: Report):
+    """An explicit method request is not re-dispatched: inside a branch taken for method == "x", a call to ANOTHER
+    dispatcher that itself has a branch for "x" must pass method= (else the callee picks by size / cache state)."""
+    rep.rule("C06.M2", "explicit decomposition-method requests are forwarded, not re-dispatched by size", floor=2)
+    base = idx.operator_base()
+    dispatchers = {name: fn for name, fn in base.methods.items() if "method" in fn.params() and _handled_literals(fn, "method")}
+    n = 0
+    for fn in idx.functions:
+        if "method" not in fn.params() or fn.cls is None:
+            continue
+        cfg = None
+        for x in walk_body(fn):
+            if not (isinstance(x, ast.Call) and isinstance(x.func, ast.Attribute) and x.func.attr in dispatchers
+                    and isinstance(x.func.value, ast.Name) and x.func.value.id == "self" and x.func.attr != fn.name):
+                continue
+            callee = dispatchers[x.func.attr]
+            if cfg is None:
+                from ..cfg import CFG
+
+                cfg = CFG(fn)
+            node = cfg.node_of(x)
+            if node is None:
+                continue
+            lits: Set[str] = set()
+            for d in cfg.dominators(node.id):
+                dn = cfg.nodes[d]
+                if dn.kind == "test" and cfg.branch_taken(d, node.id) is True:
+                    lits |= _literals_of_test(dn.ast, "method")
+            if not lits:
+                continue
+            n += 1
+            clash = sorted(lits & _handled_literals(callee, "method"))
+            passes = any(k.arg == "method" for k in x.keywords) or len(x.args) > callee.params().index("method") - 1
+            sample = {"caller": fname(fn), "under_method": sorted(lits), "call": short(x, 50), "callee_handles": clash}
+            if clash and not passes:
+                rep.bad("C06.M2", Finding(PROP, "C06.M2", fname(fn), f"{norm(x)} under method in {sorted(lits)}",
+                                          f"{fname(fn)}: for the explicit request method={clash[0]!r} it calls `{short(x, 50)}` "
+                                          f"without method=; {callee.name} has its own branch for {clash[0]!r} but, called like "
+                                          "this, chooses by matrix size / settings - above max_cholesky_size the exact "
+                                          "decomposition that was asked for is replaced by a truncated Lanczos one", fn.loc(x)), sample)
+            else:
+                rep.ok("C06.M2", sample)
+    if n < 2:
+        rep.error(f"only {n} dispatcher-to-dispatcher calls under an explicit method test found (expected >= 2)")
+
+
+def jitter_rules_for(idx: ProgramIndex, rep: Report, rule: str):
+    """The Cholesky route of every factorization goes through psd_safe_cholesky: its info / jitter / orientation rules
+    (C16.I, C16.D, C16.U) are re-emitted here - a factor that is over-jittered or of the wrong orientation does not
+    factorize the matrix it is returned for."""
+    from . import c16
+
+    sub = Report("C16", "quick", rep.root)
+    sub.quiet = True
+    c16.run(idx, sub, "quick", selftest=False)
+    for rname in ("C16.I", "C16.D", "C16.U"):
+        st = sub.rules.get(rname)
+        if st is None:
+            continue
+        bad = [f for f in sub.findings if f.rule == rname]
+        rep.count(rule, max(st.instances - len(bad), 0))
+        for f in bad:
+            rep.bad(rule, Finding(PROP, rule, f.function, f.construct, f"[{rname}] {f.message}", f.loc))
+    for e in sub.errors:
+        rep.error(f"psd_safe_cholesky rules: {e}")
+
+
 def run(idx: ProgramIndex, rep: Report, tier: str, selftest: bool = True):
     rep.extra["explanation"] = (
         "Structural necessary conditions of 'factorizations factorize'. (R) The orientation of the factor returned by "
@@ -200,6 +283,9 @@ def run(idx: ProgramIndex, rep: Report, tier: str, selftest: bool = True):
     rule_orientation(idx, rep)
     rule_spec_params(idx, rep)
     rule_method_tables(idx, rep)
+    rule_request_forwarding(idx, rep)
+    rep.rule("C06.J", "the jittered Cholesky factor is info-gated, per member, incremental and of the requested orientation", floor=8)
+    jitter_rules_for(idx, rep, "C06.J")
     if selftest:
         from ..selftest import run_fixtures
 
